@@ -377,4 +377,8 @@ def main(argv=None):
 
 
 if __name__ == "__main__":
-    sys.exit(main())
+    # run the one imported copy of this module (property modules import mc.runner; a second copy named __main__ would
+    # have its own Res class and its own class-level index)
+    from mc import runner as _runner
+
+    sys.exit(_runner.main())
